@@ -161,6 +161,11 @@ def run_tree(rec, tier, seed, ti, spec, other):
             mech = "package-not-importable" if "import eolib failed" in p0 else "declared-type-not-exported"
             if "expected an indented block" in p0:
                 mech = "empty-body-generates-invalid-python"
+            else:
+                hz = campaign.import_hazards(spec)
+                if hz:
+                    # known finding: cross-directory references against the package layering (see DESIGN 10.2)
+                    mech = "non-layered-references:" + "+".join(hz)
             rec.violation(mech, "tree %d: %s" % (ti, "; ".join(pr["problems"][:3])), case)
         if ti <= 0:
             rec.sample({"tree": ti, "files_generated": len(ref), "configurations": [c for c, _ in configs] + ["into-own-output", "protocol.py-over-other-output", "fresh-import"]})
